@@ -650,6 +650,19 @@ m("c11-merge-naked-delete-keeps-start-tail-from-cursor", "C11", "nomt/src/merkle
         ("nomt/src/merkle/seek.rs",
          "                if key_path == Some(&overlay_key) {\n                    // The leaf data has been updated in the overlay.\n                    beatree_leaf_idx += 1;\n                }",
          "                final_leaf_data_collection\n                    .extend_from_slice(&collected_leaf_data[start_idx..beatree_leaf_idx]);\n                if key_path == Some(&overlay_key) {\n                    // The leaf data has been updated in the overlay.\n                    beatree_leaf_idx += 1;\n                }\n                start_idx = beatree_leaf_idx;")])
+# ---- benign probes for S11 / L8 / S12 ----
+m("benign-hash-path-hoisted-siblings", "C08", "core/src/proof/multi_proof.rs",
+  "            &terminal_bits[start_depth..terminal_path.depth],\n            siblings[..unique_len].iter().rev().copied(),",
+  "            &terminal_bits[start_depth..start_depth + unique_len],\n            siblings[..unique_len].iter().rev().copied(),",
+  None)
+m("benign-read-guard-dropped-after-lookup", "C15", "nomt/src/lib.rs",
+  "        let _guard = self.access_lock.read();\n        self.store.load_value(path)\n    }",
+  "        let guard = self.access_lock.read();\n        let value = self.store.load_value(path);\n        drop(guard);\n        value\n    }",
+  None)
+m("benign-ancestor-data-get-unwrap", "C11", "nomt/src/overlay.rs",
+  "            self.ancestor_data[self.ancestor_data.len() - seqn_diff as usize - 1]\n                .values",
+  "            self.ancestor_data\n                .get(self.ancestor_data.len() - seqn_diff as usize - 1)\n                .unwrap()\n                .values",
+  None)
 # ---- C09 K2: one delta per commit ----
 m("benign-finish-delta-by-match", "C09", "nomt/src/lib.rs",
   "        let rollback_delta = self\n            .rollback_delta\n            .take()\n            .map(|delta_builder| delta_builder.finalize(&actuals));",
